@@ -63,7 +63,7 @@ func runC04(w *World) {
 	}
 	writersAlive := 0
 	handlerNotifSession := -1
-	s := NewStd1(w, Std1Opts{Dir: dir, Passive: dir == DirIn && w.Draw(2, "passive") == 1, LocalHold: hold, RemoteHold: uint16(w.Range(3, 9, "rhold")),
+	s := NewStd1(w, Std1Opts{Dir: dir, Passive: dir == DirIn && w.Draw(2, "passive") == 1, LocalHold: hold, RemoteHold: uint16(w.Range(3, 9, "rhold")), Vary: true,
 		IdleHold: time.Second, Retry: 2 * time.Second,
 		Configure: func(p *PeerH) {
 			p.Plug.EstFn = func(pl *Plug, ss *Session) {
@@ -87,6 +87,13 @@ func runC04(w *World) {
 							}
 						}
 					})
+				}
+			}
+			p.Plug.CloseFn = func(pl *Plug) {
+				// the session has ended: a write from inside OnClose must fail
+				if n := len(pl.Sessions); n > 0 && w.Chance(1, 2, "inclose") {
+					doCall("OnClose", pl.Sessions[n-1])
+					w.Probe("call-inside-OnClose")
 				}
 			}
 			p.Plug.UpdFn = func(pl *Plug, ss *Session, idx int, b []byte) *corebgp.Notification {
@@ -297,7 +304,7 @@ func runC04(w *World) {
 			continue
 		}
 		wk := fmt.Sprintf("%s|%d", c.writer, c.sess.N)
-		if c.writer == "handler" || c.writer == "OnEstablished" {
+		if c.writer == "handler" || c.writer == "OnEstablished" || c.writer == "OnClose" {
 			wk = "fsm|" + fmt.Sprint(c.sess.N)
 		}
 		if l, ok := last[wk]; ok && pi < l {
